@@ -160,6 +160,60 @@ def history_reset(k1, k2):
     sx.reach("history-reset")
 
 
+def reentrant(kind):
+    """A callback reacts to a frame in a way that changes the consumer while the frame's callbacks are still
+    running: 'nested' - the reaction makes the device send another frame at once (synchronous loopback: e.g. an
+    NMT reset answered by an error-reset EMCY); 'reset' - it calls consumer.reset().  Every callback is still
+    invoked exactly once per frame, with that frame's entry."""
+    cons = emcy().EmcyConsumer()
+    f1, f2 = _frame("f1"), _frame("f2")
+    t1 = sx.fresh_int("t1", 0, 1 << 40)
+    t2 = sx.fresh_int("t2", 0, 1 << 40)
+    calls = []
+    state = {"fired": False}
+
+    def first(e):
+        calls.append(("a", e))
+        if not state["fired"]:
+            state["fired"] = True
+            if kind == "nested":
+                cons.on_emcy(0x81, f2, t2)
+            else:
+                cons.reset()
+
+    cons.add_callback(first)
+    cons.add_callback(lambda e: calls.append(("b", e)))
+    tag = "C16/reentrant/%s" % kind
+    try:
+        cons.on_emcy(0x81, f1, t1)
+    except Exception as e:
+        sx.observe("exc", C_exc(e))
+        sx.fail("on_emcy raised %s" % C_exc(e), tag + "/raises")
+        return
+    c1, r1, d1 = _fields(f1)
+    c2, r2, d2 = _fields(f2)
+    sx.observe("calls", [(w, e.code, e.timestamp) for w, e in calls])
+    if kind == "nested":
+        sx.prove(len(calls) == 4 and [w for w, e in calls] == ["a", "a", "b", "b"], "each callback once per frame",
+                 tag + "/count")
+        if len(calls) == 4:
+            sx.prove(_same_entry(calls[0][1], c1, r1, d1, t1) & _same_entry(calls[1][1], c2, r2, d2, t2),
+                     "first callback sees each frame's own entry", tag + "/first")
+            sx.prove(_same_entry(calls[2][1], c2, r2, d2, t2) & _same_entry(calls[3][1], c1, r1, d1, t1),
+                     "later callback sees each frame's own entry once", tag + "/later")
+        sx.prove(len(cons.log) == 2, "both frames logged", tag + "/log")
+    else:
+        sx.prove(len(calls) == 2 and [w for w, e in calls] == ["a", "b"], "each callback once", tag + "/count")
+        if len(calls) == 2:
+            sx.prove(_same_entry(calls[1][1], c1, r1, d1, t1) & (calls[0][1] is calls[1][1]),
+                     "later callback receives the frame's entry", tag + "/later")
+    sx.reach("reentrant")
+
+
+def C_exc(e):
+    return type(e).__name__
+
+
 def producer(n):
     """A message sent by the producer is decoded by the consumer into the same code, register and
     data (zero-padded to five bytes)."""
@@ -299,6 +353,8 @@ def jobs(tier):
     for n in range(0, 6):
         out.append(dict(func="producer", params=dict(n=n)))
     out.append(dict(func="description", params={}))
+    for kind in ("nested", "reset"):
+        out.append(dict(func="reentrant", params=dict(kind=kind)))
     pats = [(), ("-",), ("m",), ("o", "m"), ("o", "-"), ("o", "o", "m"), ("m", "o")]
     for filtered in (False, True):
         for nf in (1, 2):
@@ -325,7 +381,7 @@ META = dict(
                     "log entry)", "OS-thread interleavings", "data longer than 5 bytes"],
     assumptions=["fake clock: a wake-up without delivery advances time by the time-out"],
     stubs=["struct", "threading.Condition", "time", "bytes"],
-    required_reach=["step", "reset-cleared", "history", "history-reset", "long-step", "producer", "producer-reset", "desc", "wait-timeout",
+    required_reach=["step", "reset-cleared", "history", "history-reset", "long-step", "reentrant", "producer", "producer-reset", "desc", "wait-timeout",
                     "wait-hit", "threads-entry", "threads-none"],
     limits=dict(quick=dict(), thorough=dict(crosscheck_every=2, crosscheck_max=40)),
 )
